@@ -32,8 +32,8 @@ def run(ctx) -> None:
                                  "colN_ accessor passes through the accessor-map lookup before giving up", 3)
     ctx.rule("f.map-fresh", "the accessor map is read only through _current_column_map() (which rebuilds it when a column was renamed "
                             "through a live view); _build_column_map() results are always stored; every store to a column name inside a "
-                            "Table method is followed by a rebuild", 8)
-    ctx.rule("g.names-untouched", "sanitisation, map building, dir() and repr never write a stored name", 5)
+                            "Table method is followed by a rebuild", 4)
+    ctx.rule("g.names-untouched", "sanitisation, map building, dir() and repr never write a stored name", 3)
     ctx.rule("h.string-index", "string indexing: exact stored name first over all columns, first occurrence; missing raises (R-NAME)", 2)
     ctx.section("sanitiser", _sanitiser, ctx)
     ctx.section("reserved", _reserved, ctx)
